@@ -246,6 +246,7 @@ func cmdCheck(args []string) int {
 	tier := fs.String("tier", "", "quick|thorough")
 	keep := fs.String("keep", "", "")
 	evOut := fs.String("evidence", "", "evidence file (default <verif>/evidence/<id>.json)")
+	replayDir := fs.String("replays", "", "directory for replay files (default <verif>/replays)")
 	fs.Parse(args)
 	if *tier == "" {
 		*tier = os.Getenv("VERIF_TIER")
@@ -350,7 +351,11 @@ func cmdCheck(args []string) int {
 			continue
 		}
 		violations++
-		path := writeReplay(*verif, *repo, *prop, cfg, r, v)
+		rd := *replayDir
+		if rd == "" {
+			rd = filepath.Join(*verif, "replays")
+		}
+		path := writeReplay(*verif, *repo, rd, *prop, cfg, r, v)
 		suffix := ""
 		if !replayReproduced(path) {
 			suffix = " no-failing-input-found"
